@@ -41,14 +41,61 @@ impl SimVdaf<32> for Pop {
     }
 }
 
+thread_local! {
+    /// Storage-offset tape: when non-empty, every IdpfInput the harness builds is handed over as a
+    /// bit vector that starts tape[k] bits into its first storage word (a legal
+    /// `IdpfInput::from(BitVec)`, logically equal to the aligned input).
+    static OFFSETS: std::cell::RefCell<(Vec<u8>, usize, u64)> = std::cell::RefCell::new((Vec::new(), 0, 0));
+}
+
+pub fn set_offsets(tape: Vec<u8>) {
+    OFFSETS.with(|o| *o.borrow_mut() = (tape, 0, 0));
+}
+
+/// Clears the tape; returns how many inputs were built with a non-zero storage offset.
+pub fn clear_offsets() -> u64 {
+    OFFSETS.with(|o| {
+        let n = o.borrow().2;
+        *o.borrow_mut() = (Vec::new(), 0, 0);
+        n
+    })
+}
+
+fn bools_to_input(b: &[bool]) -> IdpfInput {
+    let off = OFFSETS.with(|o| {
+        let mut o = o.borrow_mut();
+        if o.0.is_empty() {
+            return 0usize;
+        }
+        let v = o.0[o.1 % o.0.len()] as usize % 64;
+        o.1 += 1;
+        if v != 0 {
+            o.2 += 1;
+        }
+        v
+    });
+    if off == 0 {
+        return IdpfInput::from_bools(b);
+    }
+    use bitvec::prelude::*;
+    let mut bv: BitVec<usize, Lsb0> = BitVec::new();
+    for i in 0..off {
+        bv.push(i % 3 != 1);
+    }
+    for x in b {
+        bv.push(*x);
+    }
+    IdpfInput::from(bv[off..].to_bitvec())
+}
+
 pub fn bits_to_input(bits: &[N]) -> IdpfInput {
     let b: Vec<bool> = bits.iter().map(|x| x.0 != 0).collect();
-    IdpfInput::from_bools(&b)
+    bools_to_input(&b)
 }
 
 pub fn str_to_input(s: &str) -> IdpfInput {
     let b: Vec<bool> = s.bytes().map(|c| c == b'1').collect();
-    IdpfInput::from_bools(&b)
+    bools_to_input(&b)
 }
 
 pub struct PopAd {
